@@ -60,7 +60,9 @@
 /* the list of finished entries can be appended to */
 #define IDXW_WF(z) ((z)->index.first == NULL ? (z)->index.last == NULL : ((z)->index.last != NULL && OWNED_RW_OK((z)->index.last, sizeof(zckChunk))))
 /* option setters (comp_ioption) keep: a minimum can only be set below an already set maximum */
+#ifndef OPT_WF
 #define OPT_WF(z) ((z)->chunk_max_size >= 0 && (z)->chunk_min_size >= 0 && ((z)->chunk_max_size == 0 ? (z)->chunk_min_size == 0 : (z)->chunk_min_size <= (z)->chunk_max_size))
+#endif
 
 ssize_t verif_compress(zckCtx *zck, zckComp *comp, const char *src, const size_t src_size, char **dst, size_t *dst_size, bool use_dict);
 bool verif_end_cchunk(zckCtx *zck, zckComp *comp, char **dst, size_t *dst_size, bool use_dict);
